@@ -102,9 +102,48 @@ def save_blocks(cx):
     cx.floor('FIGURE', n, 8, 'plotting functions with a savefig argument')
 
 
+DAH_ITEMS = [
+    ('a single histogram channel is a one-element list', "if not hasattr(hist_channels, '__iter__'):"),
+    ('... wrapped', 'hist_channels = [hist_channels]'),
+    ('one set of histogram parameters applies to every histogram', 'if isinstance(hist_params, dict):'),
+    ('... repeated per channel', 'hist_params = [hist_params] * len(hist_channels)'),
+    ('a density plot is drawn iff density channels are given', 'PD = not (density_channels is None)'),
+    ('number of panels = density plot + one per histogram channel', 'NP = PD + len(hist_channels)'),
+    ('default height grows with the number of panels', 'H = 0.315 + 2.935 * NP'),
+    ('default figure size', 'figsize = (6, H)'),
+    ('... only when none is given', 'if figsize is None:'),
+    ('figure created', 'plt.figure(figsize=figsize)'),
+    ('density panel is the first one', 'plt.subplot(NP, 1, 1)'),
+    ('density diagram of the chosen channels with the caller\'s parameters', 'density2d(data, channels=density_channels, **density_params)'),
+    ('every gate contour is drawn', 'for G in gate_contour:'),
+    ('... as a black line', "plt.plot(G[:, 0], G[:, 1], color='k', linewidth=1.25)"),
+    ('one colour per histogram', 'NC = NP - 1'),
+    ('colours come from the endless default property cycle (never exhausted)', "CYC = plt.rcParams['axes.prop_cycle']()"),
+    ('... one draw per histogram', "COL = [next(CYC)['color'] for I in range(NC)]"),
+    ('every histogram channel gets its panel', 'for I2, HC in enumerate(hist_channels):'),
+    ('... after the density panel', 'plt.subplot(NP, 1, PD + I2 + 1)'),
+    ('histogram parameters of this channel are copied before defaults are added', 'HP = hist_params[I2].copy()'),
+    ('default colour of this histogram', "HP['facecolor'] = COL[I2]"),
+    ('... only when the caller gave none', "if 'facecolor' not in HP:"),
+    ('ungated histogram (half transparent) when gated data are given', 'hist1d(data, channel=HC, alpha=0.5, **HP)'),
+    ('gated histogram on top', 'hist1d(gated_data, channel=HC, alpha=1.0, **HP)'),
+    ('ungated histogram alone otherwise', 'hist1d(data, channel=HC, **HP)'),
+]
+
+
+def density_and_hist_steps(cx):
+    fn = Fn(cx, 'plot.density_and_hist')
+    metas = {m: m for m in ['PD', 'NP', 'H', 'G', 'NC', 'CYC', 'COL', 'HC', 'HP']}
+    metas['I'] = 'I'
+    metas['I2'] = 'I'
+    inventory(fn, 'FIGURE', DAH_ITEMS, metas, rebind_ok=('hist_channels', 'hist_params', 'figsize', 'density_params'))
+    return fn
+
+
 def run_all(cx):
     from . import excel_rules as E
     calibration_figures(cx)
     table_figures(cx, E.BEADS, 'beads')
     table_figures(cx, E.SAMPLES, 'samples')
     save_blocks(cx)
+    density_and_hist_steps(cx)
